@@ -15,6 +15,15 @@ CMP = {
 }
 
 
+def decode(value):
+    """JSON encoding of values that are only partially ordered: {'set': [...]} and 'nan'"""
+    if isinstance(value, dict) and 'set' in value:
+        return frozenset(value['set'])
+    if value == 'nan':
+        return float('nan')
+    return value
+
+
 def dates_in(spec):
     kind = spec['k']
     if kind in ('ge', 'eq', 'lt'):
@@ -42,9 +51,9 @@ def holds(spec, state, now):
         return bool(state['flags'][spec['f']]) != bool(spec.get('neg'))
     if kind == 'tracked':
         right = spec['v']
-        if isinstance(right, dict):
+        if isinstance(right, dict) and 'i' in right:
             right = state['tracked'][right['i']]
-        return CMP[spec['cmp']](state['tracked'][spec['i']], right)
+        return CMP[spec['cmp']](decode(state['tracked'][spec['i']]), decode(right))
     if kind == 'done':
         return bool(state['done'].get(spec['task'], False)) != bool(spec.get('neg'))
     if kind == 'levels':
